@@ -10,9 +10,10 @@ PROP = "C08"
 
 TIERS = {
     # streams, runs per stream, real generate_loopy every k-th run
-    "quick": {"streams": 64, "runs": 450, "codegen_every": 9, "budget_s": None},
+    "quick": {"streams": 64, "runs": 450, "codegen_every": 9, "budget_s": None,
+              "shadow_every": 450},
     "thorough": {"streams": 4000, "runs": 300, "codegen_every": 3,
-                 "budget_s": 20 * 60},
+                 "budget_s": 20 * 60, "shadow_every": 50},
 }
 
 
@@ -24,13 +25,18 @@ from checks.known import match_known  # noqa: E402
 
 
 def run_stream(task):
-    seed, stream, nruns, codegen_every = task
+    seed, stream, nruns, codegen_every = task[:4]
+    shadow_every = task[4] if len(task) > 4 else 0
     known = driver.load_known_findings(PROP)
     acc = e1.Accum()
     t0 = time.monotonic()
     for run in range(nruns):
         case, rng = e1.make_case(seed, PROP, stream, run,
                                  codegen_every=codegen_every)
+        if shadow_every and run % shadow_every == shadow_every - 1:
+            # (late in the stream: quick wins first when hunting a violation)
+            case["real_codegen"] = True
+            case["shadow_exec"] = True
         try:
             res, trace = e1.run_with(case, None, rng,
                                      cross_check=(run % 8 == 1))
@@ -66,3 +72,8 @@ def replay(path):
     return doc, e1.classes_of(rest), rest
 
 # vim: foldmethod=marker
+
+
+def make_tasks(seed, conf):
+    return [(seed, k, conf["runs"], conf["codegen_every"],
+             conf.get("shadow_every", 0)) for k in range(conf["streams"])]
